@@ -766,11 +766,20 @@ fn refresh_coordinate_keys(
 
                 // Add the most recent secrets from the MSK that do not belong
                 // to the USK at the front of the updated chain (cf Invariant.1)
+                let mut is_first_secret_known = false;
                 for (_, msk_secret) in msk_secrets.by_ref() {
                     if msk_secret == &first_secret {
+                        is_first_secret_known = true;
                         break;
                     }
                     updated_chain.push_back(msk_secret.clone());
+                }
+
+                // If the most recent USK secret does not belong to the MSK
+                // anymore (it was pruned), neither do the older ones: only
+                // the MSK secrets are kept (cf Invariant.2).
+                if !is_first_secret_known {
+                    return Some((coordinate, updated_chain));
                 }
 
                 // Push the first USK secret since it was consumed from the USK
